@@ -778,6 +778,16 @@ def rule_r9(chk, p, t):
             r.violation(cons, f"constant:{name}", f"{name} = {float(got)!r} {unit} deviates from the published value {want!r} by {relerr:.2e} (tolerance {tol:g}): a unit slip or a digit error - every acceleration that uses it is off by the same factor", cm.relpath)
 
 
+def rule_r10(chk, p, t):
+    # "each perturbation present exactly when configured": the perturbation switches and the geopotential settings reach
+    # the force model as the user wrote them - no validator of their configuration class derives one from another
+    # (solar radiation pressure switched on must not add the Sun's third-body attraction) - shared instance of C10.R9,
+    # here with derivations between the dynamics settings themselves included
+    from rules import C10
+
+    C10.rule_r9(chk, p, t, rid="C13.R10", only=("PerturbationsConfig", "GeopotentialConfig"))
+
+
 def run(chk, p, t):
     chk.explanation = (
         "Static decision of structural necessary conditions of C13: (R1) each perturbation is defined under its own "
@@ -789,8 +799,8 @@ def run(chk, p, t):
         "value of any formula, the Chebyshev ephemerides, continuity of Sun / Moon positions."
     )
     chk.assumptions += ["the reference forms of R4 are transcriptions of the equations cited in the module docstrings (Montenbruck & Gill 3.29-3.33, 3.75; Battin's third-body form)"]
-    for fn in (rule_r1, rule_r2, rule_r3, rule_r4, rule_r5, rule_r6, rule_r7, rule_r9):
-        rid = "C13.R" + fn.__name__[-1]
+    for fn in (rule_r1, rule_r2, rule_r3, rule_r4, rule_r5, rule_r6, rule_r7, rule_r9, rule_r10):
+        rid = "C13.R" + fn.__name__.split("_r")[-1]
         if not chk.wants(rid):
             continue
         try:
